@@ -28,7 +28,8 @@ EXPLANATION = (
     "rate constant (unit steady-state gain); the stage variable's name contains the stage counter; the stages run over range(lo, hi) with "
     "hi - lo = n; `prev` is the source (or the selected source elements) for the first stage and the previous stage's variable for every "
     "later stage; the buffered output is the last stage.  R3 in the scalar sibling the key that groups delay slots into shared chains "
-    "is built from the slot's own order element and rate element of one common zip.  R4 in _collect_delays_from_edges the `discretize` "
+    "is built from the slot's own order element and rate element of one common zip, the chain's number of stages is the key component that "
+    "holds the order, and the chain's rate is read from the rate list at a slot of the chain's own group.  R4 in _collect_delays_from_edges the `discretize` "
     "flag handed to _process_delays for the delay is, on every path, the one set by the test of the same edge's spread (True exactly on "
     "the no-spread arm); _process_delays hands its flag to every _preprocess_delay call; _preprocess_delay returns the delay unchanged on "
     "the non-discretising arm.  NOT decided: trajectories, mean/variance of the realised kernel beyond these formulas, behaviour for "
@@ -433,43 +434,32 @@ def r2_stage_equations(ctx, rid):
         f, em, eq = ch.f, ch.em, ch.em.eq
         vdefs = U.var_defs(ctx, f)
         # ---- (a) algebra: rhs = a*prev - a*z
-        Z = eq.name(eq.lhs)
-        if Z is None:
-            raise AnalysisError(f"{rid}: {f.qual}: lhs of `{eq.text}` is not a plain variable")
-        z = sp.Symbol(Z)
-        try:
-            e = sp.expand(eq.sym(eq.rhs))
-        except symx.Unsupported as ex:
-            raise AnalysisError(f"{rid}: {f.qual}: rhs of `{eq.text}` is not arithmetic: {ex}")
-        cz = e.coeff(z, 1)
-        rest = sp.expand(e - cz * z)
-        facts = {"template": eq.text, "expanded_rhs": str(e), "coefficient_of_stage_variable": str(cz), "remainder": str(rest)}
+        e, z, rates, inputs = _stage_parts(ctx, ch, vdefs)
+        Z = str(z)
+        if len(inputs) != 1:
+            raise AnalysisError(f"{rid}: {f.qual}: cannot tell the input of the stage `{eq.text}` (symbols that are neither the stage variable nor a "
+                                f"registered constant: {inputs})")
+        P = inputs[0]
+        cz, cp = e.coeff(z, 1), e.coeff(P, 1)
+        rem = sp.expand(e - cz * z - cp * P)
+        facts = {"template": eq.text, "expanded_rhs": str(e), "coefficient_of_stage_variable": str(cz), "coefficient_of_input": str(cp),
+                 "registered_constants": [str(r) for r in rates]}
         problems = []
-        a = -cz
-        P = None
-        if cz == 0 or z in rest.free_symbols:
-            problems.append(f"the rhs is not linear in the stage variable `{Z}` with a decay term")
-        elif not (a.is_Symbol):
-            if (cz.is_Symbol):
-                problems.append(f"the stage variable enters with coefficient +{cz}: the stage grows instead of relaxing towards its input (sign flipped)")
+        if rem != 0 or z in cp.free_symbols or P in cz.free_symbols:
+            problems.append(f"the rhs is not linear in stage variable and input (remainder {rem})")
+        elif sp.simplify(cp + cz) != 0:
+            problems.append(f"input and stage variable do not carry the same coefficient (input: {cp}, stage variable: {cz}): with z' = a*prev - b*z the "
+                            f"steady-state gain of each stage is a/b, not 1")
+        elif not (cp.is_Symbol and cp in rates):
+            if (-cp).is_Symbol and (-cp) in rates:
+                problems.append(f"the sign is flipped: z' = {cp}*prev + {(-cp)}*z grows away from its input instead of relaxing towards it")
             else:
-                problems.append(f"the stage variable enters with coefficient {cz}, the input with a different one: steady state z = prev is not a fixed "
-                                f"point, the chain's gain is not 1")
-        else:
-            P = sp.simplify(rest / a)
-            if not P.is_Symbol or P == z:
-                problems.append(f"input and stage variable do not carry the same coefficient: rhs = {e}; with z' = a*prev - b*z the steady-state gain is a/b, "
-                                f"not 1")
-        a_t = str(a) if a.is_Symbol else None
-        if not problems:
-            cds = [v for v in vdefs if v.name == a_t]
-            if len(cds) != 1 or const_str(cds[0].fields.get("vtype")) != "constant":
-                problems.append(f"the coefficient `{a_t}` is not registered as a constant of the operator")
+                problems.append(f"the common coefficient `{cp}` is not the rate constant registered for this chain ({[str(r) for r in rates]})")
         label = f"{ch.label}: stage equation"
         if problems:
             ctx.violation(rid, f, em.stmt, "; ".join(problems), facts, label=label)
         else:
-            ctx.ok(rid, f, em.stmt, f"rhs normalises to a*prev - a*z with a = `{a_t}`, prev = `{P}` (unit steady-state gain)", facts, label=label)
+            ctx.ok(rid, f, em.stmt, f"rhs normalises to a*prev - a*z with a = `{cp}`, prev = `{P}` (unit steady-state gain)", facts, label=label)
         # ---- (b) stage variable is distinct per stage, number of stages = order
         loop = ch.loop
         if not (isinstance(loop.target, ast.Name) and isinstance(loop.iter, ast.Call) and call_name(loop.iter) == "range"
@@ -489,9 +479,7 @@ def r2_stage_equations(ctx, rid):
                           cf, label=f"{ch.label}: stage count")
         else:
             ctx.ok(rid, f, loop, f"one distinct stage variable per k, {count} stages", cf, label=f"{ch.label}: stage count")
-        # ---- (c) chain link
-        if P is None or not P.is_Symbol:
-            continue
+        # ---- (c) chain link, (d) output
         ph = str(P)
         if not (ph.startswith("⟨") and ph.endswith("⟩") and ph.count("⟨") == 1):
             raise AnalysisError(f"{rid}: {f.qual}: the stage input `{ph}` is not a single hole (unrecognised form)")
@@ -503,6 +491,7 @@ def r2_stage_equations(ctx, rid):
             raise AnalysisError(f"{rid}: {f.qual}: the stage input hole `{ph}` is not a local name")
         src_param = _source_param(ctx, f)
         _check_link(ctx, rid, ch, pnode, Z, kname, lo, hi, src_param)
+        _check_output(ctx, rid, ch, Z, kname, hi)
 
 
 def _source_param(ctx, f):
@@ -541,17 +530,24 @@ def _is_source_expr(ctx, f, v, src_param, depth=0) -> Optional[str]:
     return None
 
 
+def _carried(ctx, ch: Chain, Z: str):
+    """In-loop statements `x = <stage variable just emitted>` (the variable that carries the last stage out of the loop)."""
+    out = []
+    for st in ch.loop.body:
+        if isinstance(st, ast.Assign) and len(st.targets) == 1 and isinstance(st.targets[0], ast.Name):
+            if U.render_expr(ctx, ch.f, st.value) == Z and not U._is_strish(st.value):
+                out.append(st)
+    return out
+
+
 def _check_link(ctx, rid, ch: Chain, pnode: ast.Name, Z: str, kname: str, lo, hi, src_param: str):
     f, em, loop = ch.f, ch.em, ch.loop
     rd = ctx.rd(f)
     defs = rd.defs_reaching(pnode)
     label = f"{ch.label}: chain link"
-    out_label = f"{ch.label}: output is the last stage"
-    k = sp.Symbol(kname)
     inside = [d for d in defs if isinstance(d, ast.stmt) and contains(loop, d)]
     outside = [d for d in defs if isinstance(d, ast.stmt) and not contains(loop, d)]
-    facts = {"input_variable": pnode.id, "definitions": [norm(d) for d in defs if isinstance(d, ast.stmt)]}
-    ems = U.emissions(ctx, f)
+    facts = {"input_variable": pnode.id, "definitions": [norm(d) for d in defs if isinstance(d, ast.stmt)], "stage_variable": Z}
     if len(defs) == 1 and inside and isinstance(assigned_value(inside[0], pnode.id), ast.IfExp):
         # --- computed form: prev = <source> if k == first else <stage k-1>
         ife = assigned_value(inside[0], pnode.id)
@@ -562,7 +558,7 @@ def _check_link(ctx, rid, ch: Chain, pnode: ast.Name, Z: str, kname: str, lo, hi
             raise AnalysisError(f"{rid}: {f.qual}: test `{ast.unparse(t)}` of the stage input does not compare the stage counter with the first stage")
         first = _is_source_expr(ctx, f, ife.body, src_param)
         other = U.render(ctx, f, ife.orelse)
-        facts.update({"first_stage_input": first or ast.unparse(ife.body), "later_stage_input": other or ast.unparse(ife.orelse), "stage_variable": Z})
+        facts.update({"first_stage_input": first or ast.unparse(ife.body), "later_stage_input": other or ast.unparse(ife.orelse)})
         problems = []
         if first is None:
             problems.append(f"the first stage is not driven by the source variable ⟨{src_param}⟩")
@@ -573,20 +569,6 @@ def _check_link(ctx, rid, ch: Chain, pnode: ast.Name, Z: str, kname: str, lo, hi
             ctx.violation(rid, f, inside[0], "; ".join(problems), facts, label=label)
         else:
             ctx.ok(rid, f, inside[0], "stage 1 is driven by the source, stage k by stage k-1", facts, label=label)
-        # output: name of stage hi-1
-        outs = [e for e in ems if not e.eq.ode and U.compatible(ctx, f, U.branch_chain(e.stmt), U.branch_chain(loop)) and e.group is None]
-        if len(outs) != 1:
-            raise AnalysisError(f"{rid}: {f.qual}: expected one output equation next to the cascade, found {len(outs)}")
-        o = outs[0]
-        ot = o.eq.name(o.eq.rhs)
-        last = hi - 1
-        good = ot is not None and _matches_stage(Z, ot, kname, last)
-        of = {"output_equation": o.text, "last_stage_index": str(last)}
-        if good:
-            ctx.ok(rid, f, o.stmt, f"the buffered output is stage {last}", of, label=out_label)
-        else:
-            ctx.violation(rid, f, o.stmt, f"the buffered output `{o.text}` does not read the last stage (k = {last}) of the cascade: the edge would see a "
-                                          f"kernel of another order", of, label=out_label)
         return
     if inside and outside:
         # --- carried form: prev = <source>; for k: emit(prev); prev = z_k
@@ -612,34 +594,48 @@ def _check_link(ctx, rid, ch: Chain, pnode: ast.Name, Z: str, kname: str, lo, hi
             ctx.violation(rid, f, em.stmt, "; ".join(problems), facts, label=label)
         else:
             ctx.ok(rid, f, em.stmt, "stage 1 is driven by the source (selection), every later stage by the stage emitted before it", facts, label=label)
-        # output: the equations after the loop that read the carried variable
-        outs = []
-        for e in ems:
-            if e.eq.ode or e.group is not None:
-                continue
-            h = e.eq.name(e.eq.rhs)
-            if h == f"⟨{pnode.id}⟩":
-                outs.append(e)
-        if not outs:
-            raise AnalysisError(f"{rid}: {f.qual}: no output equation reads the carried stage variable `{pnode.id}`")
-        bad = []
-        for o in outs:
-            hn = [n.value for n in ast.walk(o.node) if isinstance(n, ast.FormattedValue) and ast.unparse(n.value) == pnode.id]
-            dd = rd.defs_reaching(hn[0]) if hn else []
-            if not any(d in inside for d in dd) or o.stmt.lineno < loop.lineno or contains(loop, o.stmt):
-                bad.append(o.text)
-        of = {"output_equations": [o.text for o in outs]}
-        if bad:
-            ctx.violation(rid, f, outs[0].stmt, f"output equation(s) {bad} do not read the stage variable carried out of the stage loop", of, label=out_label)
-        else:
-            ctx.ok(rid, f, outs[0].stmt, f"all {len(outs)} write-back equations read the variable carried out of the stage loop (last stage)", of, label=out_label)
         return
     if outside and not inside:
-        ctx.violation(rid, f, em.stmt, f"the stage input `{pnode.id}` is never advanced inside the stage loop: every stage is driven by the source, so the "
-                                       f"cascade degenerates to n parallel first-order lags (and the output reads "
-                                       f"the source itself or one of them)", facts, label=label)
+        ctx.violation(rid, f, em.stmt, f"the stage input `{pnode.id}` is never advanced inside the stage loop: every stage is driven by the same signal, so the "
+                                       f"cascade degenerates to n parallel first-order lags instead of an n-th order kernel", facts, label=label)
         return
     raise AnalysisError(f"{rid}: {f.qual}: definitions of the stage input `{pnode.id}` have an unrecognised structure")
+
+
+def _check_output(ctx, rid, ch: Chain, Z: str, kname: str, hi):
+    """The equations that hand the chain's result to the buffered output read the last stage."""
+    f, loop = ch.f, ch.loop
+    rd = ctx.rd(f)
+    out_label = f"{ch.label}: output is the last stage"
+    ems = U.emissions(ctx, f)
+    outs = [e for e in ems if not e.eq.ode and e.group is None and not contains(loop, e.stmt) and e.stmt.lineno > loop.lineno
+            and U.loop_of(e.stmt) is U.loop_of(loop) and U.compatible(ctx, f, U.branch_chain(e.stmt), U.branch_chain(loop))]
+    if not outs:
+        raise AnalysisError(f"{rid}: {f.qual}: no output equation follows the stage loop (unrecognised form)")
+    carried = _carried(ctx, ch, Z)
+    cnames = {st.targets[0].id for st in carried}
+    last = hi - 1
+    bad, good = [], []
+    for o in outs:
+        rt = o.eq.name(o.eq.rhs)
+        h = rt[1:-1] if rt and rt.startswith("⟨") and rt.endswith("⟩") and rt.count("⟨") == 1 else None
+        if h is not None and h in cnames:
+            hn = [n.value for n in ast.walk(o.node) if isinstance(n, ast.FormattedValue) and ast.unparse(n.value) == h]
+            dd = rd.defs_reaching(hn[0]) if hn else []
+            if any(d in carried for d in dd):
+                good.append(o.text)
+                continue
+        if rt is not None and _matches_stage(Z, rt, kname, last):
+            good.append(o.text)
+            continue
+        bad.append(o.text)
+    of = {"output_equations": [o.text for o in outs], "carried_by": sorted(cnames), "last_stage_index": str(last)}
+    if bad:
+        ctx.violation(rid, f, outs[0].stmt, f"output equation(s) {bad} do not read the last stage of the cascade (neither the variable carried out of the stage "
+                                            f"loop nor the stage variable with k = {last}): the edge would see the source itself or a kernel of another order",
+                      of, label=out_label)
+    else:
+        ctx.ok(rid, f, outs[0].stmt, f"all {len(outs)} output equation(s) read the last stage", of, label=out_label)
 
 
 def _matches_stage(zt: str, other: str, loopvar: str, value) -> bool:
@@ -996,6 +992,6 @@ def _flag_polarity(test, fpar) -> Optional[bool]:
 RULES = [
     ("C11-R1", r1_order_and_rate, 5),
     ("C11-R2", r2_stage_equations, 8),
-    ("C11-R3", r3_grouping_key, 2),
+    ("C11-R3", r3_grouping_key, 3),
     ("C11-R4", r4_delays_stay_continuous, 5),
 ]
